@@ -5,7 +5,7 @@
 (*   config/python.py, config/yaml.py, runners/service.py                   *)
 (*                                                                         *)
 (* A case cfg = [kind : "yaml" | "python" | "badext",                       *)
-(*               err  : "none" | "syntax" | "dangling" | "nopipeline" |     *)
+(*               err  : "none" | "syntax" | "dangling" | "nopipeline" | "multidoc" | *)
 (*                      "ctor" | "unknowntag" | "pyraises",                 *)
 (*               svcs : the set of element names that are services,         *)
 (*               elems: all element names (constructed last to first),      *)
